@@ -21,7 +21,7 @@ Example script_name_regex_anchor :
 Proof. split; reflexivity. Qed.
 Example placeholder_regex_anchor :
   Gen.C08.placeholder_regex
-  = s2n "<link name=""CSS_PLACEHOLDER""(?: data-djc-css-\w{6}="""")?(?: data-djc-id-\w{6}="""")*/?>|<script name=""JS_PLACEHOLDER""(?: data-djc-css-\w{6}="""")?(?: data-djc-id-\w{6}="""")*></script>"
+  = s2n "<link name=""CSS_PLACEHOLDER""(?: data-djc-(?:id|css)-\w{6}="""")*/?>|<script name=""JS_PLACEHOLDER""(?: data-djc-(?:id|css)-\w{6}="""")*></script>"
   /\ Gen.C08.placeholder_regex_flags = 0%N.
 Proof. split; reflexivity. Qed.
 (* flags 48 = re.UNICODE | re.DOTALL: no IGNORECASE, str-mode \s *)
@@ -1057,31 +1057,45 @@ Qed.
 Lemma is_attr_len name a : is_attr name a -> 1 <= length a.
 Proof. intros (w & L & _ & ->). rewrite !app_length, L. lia. Qed.
 
-Lemma id_groups_sound : forall fuel s, exists ids, is_attrs COMP_ID ids /\ s = ids ++ id_groups fuel s.
+Lemma any_group_sound s s' : any_group s = Some s' -> exists a, is_comp_attr a /\ s = a ++ s'.
 Proof.
-  induction fuel as [|f IH]; intro s; cbn [id_groups].
+  unfold any_group. destruct (attr_group COMP_ID s) as [r|] eqn:E.
+  - intro H. inversion H; subst r. apply attr_group_sound in E as (a & Ha & ->). exists a. split; [now left|reflexivity].
+  - intro H. apply attr_group_sound in H as (a & Ha & ->). exists a. split; [now right|reflexivity].
+Qed.
+
+(* the two kinds of attribute exclude each other *)
+Lemma id_group_not_css a rest : is_attr CSS_ID a -> attr_group COMP_ID (a ++ rest) = None.
+Proof. intros (w & _ & _ & ->). reflexivity. Qed.
+
+Lemma any_group_complete a rest : is_comp_attr a -> any_group (a ++ rest) = Some rest.
+Proof.
+  intros [H|H]; unfold any_group.
+  - now rewrite attr_group_complete.
+  - rewrite id_group_not_css by exact H. now apply attr_group_complete.
+Qed.
+
+Lemma is_comp_attr_len a : is_comp_attr a -> 1 <= length a.
+Proof. intros [H|H]; eapply is_attr_len; eauto. Qed.
+
+Lemma attr_groups_sound : forall fuel s, exists ids, is_attrs ids /\ s = ids ++ attr_groups fuel s.
+Proof.
+  induction fuel as [|f IH]; intro s; cbn [attr_groups].
   - exists []. split; [constructor|reflexivity].
-  - destruct (attr_group COMP_ID s) as [s'|] eqn:E.
-    + apply attr_group_sound in E as (a & Ha & ->). destruct (IH s') as (ids & Hi & Hs).
+  - destruct (any_group s) as [s'|] eqn:E.
+    + apply any_group_sound in E as (a & Ha & ->). destruct (IH s') as (ids & Hi & Hs).
       exists (a ++ ids). split; [now constructor|]. rewrite <- app_assoc. now rewrite <- Hs.
     + exists []. split; [constructor|reflexivity].
 Qed.
 
-Lemma id_groups_complete ids : is_attrs COMP_ID ids -> forall fuel tail,
-  length ids <= fuel -> attr_group COMP_ID tail = None -> id_groups fuel (ids ++ tail) = tail.
+Lemma attr_groups_complete ids : is_attrs ids -> forall fuel tail,
+  length ids <= fuel -> any_group tail = None -> attr_groups fuel (ids ++ tail) = tail.
 Proof.
   induction 1 as [|a b Ha Hb IH]; intros fuel tail Hf Hn.
-  - destruct fuel; cbn [id_groups app]; [reflexivity|]. now rewrite Hn.
-  - pose proof (is_attr_len _ _ Ha) as La. rewrite app_length in Hf.
-    destruct fuel as [|f]; [lia|]. cbn [id_groups]. rewrite <- app_assoc, attr_group_complete by exact Ha.
+  - destruct fuel; cbn [attr_groups app]; [reflexivity|]. now rewrite Hn.
+  - pose proof (is_comp_attr_len _ Ha) as La. rewrite app_length in Hf.
+    destruct fuel as [|f]; [lia|]. cbn [attr_groups]. rewrite <- app_assoc, any_group_complete by exact Ha.
     apply IH; [lia|exact Hn].
-Qed.
-
-Lemma opt_attr_sound s : exists o, (o = [] \/ is_attr CSS_ID o) /\ s = o ++ opt (attr_group CSS_ID) s.
-Proof.
-  unfold opt. destruct (attr_group CSS_ID s) as [s'|] eqn:E.
-  - apply attr_group_sound in E as (a & Ha & ->). exists a. auto.
-  - exists []. auto.
 Qed.
 
 Lemma match_ph_sound s n k :
@@ -1089,76 +1103,56 @@ Lemma match_ph_sound s n k :
 Proof.
   unfold match_ph. destruct (lit CSS_OPEN s) as [s1|] eqn:E1.
   - apply lit_some in E1.
-    destruct (opt_attr_sound s1) as (o & Ho & Hs1). set (s2 := opt (attr_group CSS_ID) s1) in *.
-    destruct (id_groups_sound (length s2) s2) as (ids & Hi & Hs2). set (s3 := id_groups (length s2) s2) in *.
+    destruct (attr_groups_sound (length s1) s1) as (ids & Hi & Hs2). set (s3 := attr_groups (length s1) s1) in *.
     assert (exists sl, (sl = [] \/ sl = [47%N]) /\ s3 = sl ++ opt (lit (s2n "/")) s3) as (sl & Hsl & Hs3).
     { unfold opt. destruct (lit (s2n "/") s3) as [s4|] eqn:E; [apply lit_some in E; exists [47%N]; auto | exists []; auto]. }
     set (s4 := opt (lit (s2n "/")) s3) in *.
     destruct (lit (s2n ">") s4) as [s5|] eqn:E5; [|discriminate]. apply lit_some in E5.
     intro H. inversion H; subst n k. clear H.
-    assert (Es : s = (CSS_OPEN ++ o ++ ids ++ sl ++ [GT]) ++ s5).
-    { rewrite E1. rewrite Hs1 at 1. rewrite Hs2 at 1. rewrite Hs3 at 1. rewrite E5. now rewrite <- !app_assoc. }
-    exists (CSS_OPEN ++ o ++ ids ++ sl ++ [GT]), s5. split; [exact Es|]. split.
+    assert (Es : s = (CSS_OPEN ++ ids ++ sl ++ [GT]) ++ s5).
+    { rewrite E1. rewrite Hs2 at 1. rewrite Hs3 at 1. rewrite E5. now rewrite <- !app_assoc. }
+    exists (CSS_OPEN ++ ids ++ sl ++ [GT]), s5. split; [exact Es|]. split.
     + rewrite Es at 1. rewrite (app_length _ s5). lia.
-    + exists o, ids. repeat split; auto. exists sl. auto.
+    + exists ids. split; [exact Hi|]. exists sl. auto.
   - destruct (lit JS_OPEN s) as [s1|] eqn:E1'; [|discriminate]. apply lit_some in E1'.
-    destruct (opt_attr_sound s1) as (o & Ho & Hs1). set (s2 := opt (attr_group CSS_ID) s1) in *.
-    destruct (id_groups_sound (length s2) s2) as (ids & Hi & Hs2). set (s3 := id_groups (length s2) s2) in *.
+    destruct (attr_groups_sound (length s1) s1) as (ids & Hi & Hs2). set (s3 := attr_groups (length s1) s1) in *.
     change (s2n "></script>") with JS_CLOSE.
     destruct (lit JS_CLOSE s3) as [s5|] eqn:E5; [|discriminate]. apply lit_some in E5.
     intro H. inversion H; subst n k. clear H.
-    assert (Es : s = (JS_OPEN ++ o ++ ids ++ JS_CLOSE) ++ s5).
-    { rewrite E1'. rewrite Hs1 at 1. rewrite Hs2 at 1. rewrite E5. now rewrite <- !app_assoc. }
-    exists (JS_OPEN ++ o ++ ids ++ JS_CLOSE), s5. split; [exact Es|]. split.
+    assert (Es : s = (JS_OPEN ++ ids ++ JS_CLOSE) ++ s5).
+    { rewrite E1'. rewrite Hs2 at 1. rewrite E5. now rewrite <- !app_assoc. }
+    exists (JS_OPEN ++ ids ++ JS_CLOSE), s5. split; [exact Es|]. split.
     + rewrite Es at 1. rewrite (app_length _ s5). lia.
-    + exists o, ids. repeat split; auto.
+    + exists ids. split; [exact Hi|reflexivity].
 Qed.
 
 (* what follows the attribute groups of a placeholder starts no further group *)
-Lemma no_group_slash name x rest : name = CSS_ID \/ name = COMP_ID -> x = 47%N \/ x = 62%N -> attr_group name (x :: rest) = None.
-Proof. intros [-> | ->] [-> | ->]; reflexivity. Qed.
-
-Lemma css_group_not_id a rest : is_attr COMP_ID a -> attr_group CSS_ID (a ++ rest) = None.
-Proof. intros (w & _ & _ & ->). reflexivity. Qed.
-
-Lemma opt_attr_complete o ids tail :
-  (o = [] \/ is_attr CSS_ID o) -> is_attrs COMP_ID ids -> (exists x r, tail = x :: r /\ (x = 47%N \/ x = 62%N)) ->
-  opt (attr_group CSS_ID) (o ++ ids ++ tail) = ids ++ tail.
-Proof.
-  intros [-> | Ho] Hi (x & r & -> & Hx); unfold opt.
-  - cbn [app]. destruct Hi as [|a b Ha Hb].
-    + cbn [app]. now rewrite no_group_slash by auto.
-    + rewrite <- app_assoc. now rewrite css_group_not_id.
-  - now rewrite attr_group_complete.
-Qed.
+Lemma no_group_after x rest : x = 47%N \/ x = 62%N -> any_group (x :: rest) = None.
+Proof. intros [-> | ->]; reflexivity. Qed.
 
 Lemma match_ph_complete span k rest : is_placeholder span k -> match_ph (span ++ rest) = Some (length span, k).
 Proof.
-  intros (o & ids & Ho & Hi & Hk). destruct k.
+  intros (ids & Hi & Hk). destruct k.
   - destruct Hk as (sl & Hsl & ->). unfold match_ph. rewrite <- !app_assoc, lit_app.
     assert (T : exists x r, sl ++ [GT] ++ rest = x :: r /\ (x = 47%N \/ x = 62%N)).
     { destruct Hsl as [-> | ->]; cbn [app]; eauto. }
-    rewrite (opt_attr_complete o ids _ Ho Hi T).
-    rewrite id_groups_complete; [|exact Hi|rewrite app_length; lia|].
-    2:{ destruct T as (x & r & -> & Hx). apply no_group_slash; auto. }
+    rewrite attr_groups_complete; [|exact Hi|rewrite app_length; lia|].
+    2:{ destruct T as (x & r & -> & Hx). now apply no_group_after. }
     assert (E4 : opt (lit (s2n "/")) (sl ++ [GT] ++ rest) = [GT] ++ rest).
     { destruct Hsl as [-> | ->]; reflexivity. }
     rewrite E4. change (s2n ">") with [GT]. rewrite lit_app.
     f_equal. f_equal. rewrite !app_length. cbn [length]. lia.
   - subst span. unfold match_ph. rewrite <- !app_assoc.
-    assert (lit CSS_OPEN (JS_OPEN ++ o ++ ids ++ JS_CLOSE ++ rest) = None) as -> by reflexivity.
+    assert (lit CSS_OPEN (JS_OPEN ++ ids ++ JS_CLOSE ++ rest) = None) as -> by reflexivity.
     rewrite lit_app.
-    assert (T : exists x r, JS_CLOSE ++ rest = x :: r /\ (x = 47%N \/ x = 62%N)) by (cbn [JS_CLOSE app]; eauto).
-    rewrite (opt_attr_complete o ids _ Ho Hi T).
-    rewrite id_groups_complete; [|exact Hi|rewrite app_length; lia|].
-    2:{ destruct T as (x & r & -> & Hx). apply no_group_slash; auto. }
+    rewrite attr_groups_complete; [|exact Hi|rewrite app_length; lia|now apply no_group_after; right].
     change (s2n "></script>") with JS_CLOSE. rewrite lit_app.
     f_equal. f_equal. rewrite !app_length. cbn [length]. lia.
 Qed.
 
 Lemma is_placeholder_nonempty span k : is_placeholder span k -> exists n, length span = S n.
 Proof.
-  intros (o & ids & _ & _ & Hk). destruct k.
+  intros (ids & _ & Hk). destruct k.
   - destruct Hk as (sl & _ & ->). cbn [CSS_OPEN s2n]. simpl. eauto.
   - subst span. simpl. eauto.
 Qed.
